@@ -22,6 +22,7 @@ struct M {
   MAKE_MOCK1(r, int&(int));
   MAKE_MOCK1(cr, const int&(int));
   MAKE_MOCK1(sv, std::string(int));
+  MAKE_CONST_MOCK1(f, int(int));
 };
 struct MV {
   static constexpr bool trompeloeil_movable_mock = true;
@@ -32,6 +33,7 @@ struct MV {
   MAKE_MOCK1(r, int&(int));
   MAKE_MOCK1(cr, const int&(int));
   MAKE_MOCK1(sv, std::string(int));
+  MAKE_CONST_MOCK1(f, int(int));
 };
 struct MW {
   MW() = default;
@@ -82,6 +84,7 @@ struct World {
   std::vector<WithEv> withlog;
   int depth = 0;       // nesting depth of mock calls made by the harness (0 = top level)
   int callobj = 0;     // object of the call in progress
+  int callfn = 0;      // function of the outermost call in progress
   int throw_depth = 0; // nesting depth at which the exception in flight was thrown
   int armed_ok = 0;    // 1 + reporter generation the OK callback installs, 0 = none
   void fire_armed_ok();
